@@ -184,12 +184,12 @@ class NBGraderEnvironment(Environment):
         if not skip_tifa:
             tifa_analysis(report=self.report)
         if inputs:
-            set_input(inputs)
+            set_input(inputs, report=report)
         if skip_run:
             student = get_sandbox(report=report)
         else:
             if trace:
-                start_trace()
+                start_trace(report=self.report)
             student = run(report=report)
         self.fields = {
             'student': student,
